@@ -193,6 +193,15 @@ class Ctx:
                                observed=observed, commands=commands or [],
                                count=1)
 
+    def clear_replays(self):
+        """stale artefacts of earlier runs of this check must not be mistaken for current ones"""
+        import glob
+        for f in glob.glob(os.path.join(VERIF, 'replay', self.pid + '-*.json')):
+            try:
+                os.remove(f)
+            except OSError:
+                pass
+
     def note(self, msg):
         self.notes.append(msg)
         print('note:', msg, flush=True)
